@@ -170,17 +170,57 @@ def read_cases(path):
     return cases
 
 def run_model(exe, casefile, timeout=3000):
-    rc, o = sh(["timeout", str(timeout), exe, casefile], timeout=timeout + 60)
-    mism, specf, done = {}, [], None
-    for line in o.splitlines():
-        if line.startswith("MISMATCH "):
-            p = line.split(" ", 2)
-            mism[int(p[1])] = p[2] if len(p) > 2 else ""
-        elif line.startswith("SPECFAIL "):
-            specf.append(int(line.split()[1]))
-        elif line.startswith("DONE "):
-            done = [int(x) for x in line.split()[1:]]
-    return rc, done, mism, specf, o
+    """runs the extracted model + spec predicates over the case file; large files are cut into contiguous shards
+    that run in parallel (line numbers are mapped back)"""
+    try:
+        with open(casefile, "rb") as f:
+            lines = f.readlines()
+    except OSError:
+        lines = []
+    nshard = max(1, min(14, len(lines) // 1500))
+    if nshard == 1:
+        rc, o = sh(["timeout", str(timeout), exe, casefile], timeout=timeout + 60)
+        outs = [(0, rc, o)]
+    else:
+        import concurrent.futures
+        per = (len(lines) + nshard - 1) // nshard
+        jobs = []
+        for k in range(nshard):
+            part = lines[k * per:(k + 1) * per]
+            if not part:
+                continue
+            path = "%s.shard%d" % (casefile, k)
+            with open(path, "wb") as f:
+                f.writelines(part)
+            jobs.append((k * per, path))
+        def one(job):
+            off, path = job
+            rc, o = sh(["timeout", str(timeout), exe, path], timeout=timeout + 60)
+            try:
+                os.remove(path)
+            except OSError:
+                pass
+            return off, rc, o
+        with concurrent.futures.ThreadPoolExecutor(max_workers=len(jobs)) as ex:
+            outs = list(ex.map(one, jobs))
+    mism, specf, done, rc_all, o_all = {}, [], None, 0, []
+    for off, rc, o in outs:
+        rc_all = rc_all or rc
+        o_all.append(o)
+        d = None
+        for line in o.splitlines():
+            if line.startswith("MISMATCH "):
+                p = line.split(" ", 2)
+                mism[int(p[1]) + off] = p[2] if len(p) > 2 else ""
+            elif line.startswith("SPECFAIL "):
+                specf.append(int(line.split()[1]) + off)
+            elif line.startswith("DONE "):
+                d = [int(x) for x in line.split()[1:]]
+        if d is None:
+            done = None
+            break
+        done = d if done is None else [a + b for a, b in zip(done, d)]
+    return rc_all, done, mism, sorted(specf), "\n".join(o_all)
 
 def load_findings(pid):
     p = os.path.join(ROOT, "known_findings.json")
